@@ -1,36 +1,100 @@
 /-
-C03W — the closed-world "no lost wake-up" invariant (property C03, stage S1).
+C03W — the closed-world "no lost wake-up" invariant (property C03): stages S1, A, B and C.
 
 "Whenever simulated time is about to advance, no device is holding a part that is ready to leave
 while one of its downstream neighbours would accept that part if it were offered; every blocked
 part is genuinely blocked."
 
-SCOPE (`S1 w`, decidable, preserved by every step — `Proofs/C03WDefs.lean`): only sources, handlers,
-processors WITHOUT resource requirement, buffers (delay ≥ 0), gates and sinks; receive/finish
-callbacks may change cycle time and offset of the device but not the part; sources generate single
-parts and have no upstream neighbour; wiring symmetric and in range; asset ids of devices pairwise
-distinct; no cycle through gates only (every chain of gates has at most `devs.length` gates and no
-device reaches itself through gates); maintenance targets are processors; scripts contain no
-`rewire`, no `create`, and `pause / unpause / cancel` only for asset ids that are not a device's
-(everything else — failures, shutdown/restore, block toggles, budget adjustments, cycle-time
-changes, offsets, work orders, resource operations — is allowed); no batch exists.
+STAGE S1.  SCOPE (`S1 w`, decidable, preserved by every step — `Proofs/C03WDefs.lean`): only sources,
+handlers, processors WITHOUT resource requirement, buffers (delay ≥ 0), gates and sinks;
+receive/finish callbacks may change cycle time and offset of the device but not the part; sources
+generate single parts and have no upstream neighbour; wiring symmetric and in range; asset ids of
+devices pairwise distinct; no cycle through gates only (every chain of gates has at most
+`devs.length` gates and no device reaches itself through gates); maintenance targets are processors;
+scripts contain no `rewire`, no `create`, and `pause / unpause / cancel` only for asset ids that are
+not a device's (everything else — failures, shutdown/restore, block toggles, budget adjustments,
+cycle-time changes, offsets, work orders, resource operations — is allowed); no batch exists.
 
-DEFINITIONS.  `ready w d p` — `d` holds `p` and `p` may leave now; `wouldAccept f w x p` — the pure
-acceptance predicate; `Quiescent w`; `Wake w` — every holder `d` of a part `p` has (W1) a live
-PASS_PART event of `d` queued for the due time of `p` or earlier (`Att`; due time = `now`, for the
-head of a buffer `max now (t + delay)`), or (W2) is flagged `waitingDS` and no downstream neighbour
-would accept `p` (`BlockedW`).  `Good w` = `S1`, the queue invariant of C01, `0 ≤ now`, no pending
-failure of a non-processor (`EvOK`), every held part exists (`HeldValid`), and `Wake`.
+STAGE A.  SCOPE (`S2 w ⊇ S1 w`, decidable, preserved by every step: `s2_step`): as S1, but
+processors may declare resource requirements `resReq = some req` (no negative amount).  If some
+device does, the world must also be of the class `C11W.S` of the resource theorems (scripts do not
+`reserve / release / merge / register` and do not pause / cancel the manager's events, asset id −1;
+asset ids positive; fewer than 10000 devices).
 
-THEOREMS.  `give_answer` (the answer of `give` is `wouldAccept`, independent of the order of the
-offers), `wake_init`, `wake_exec` (every action kind), `wake_step`, `wake_runLoop`, `wake_reachable`,
-`no_lost_wakeup`, `blocked_genuinely`, plus the building blocks `wake_passPart`, `wake_notify`,
-`wake_acceptPart`.  The machinery (generalised invariant `G E N` with a set `E` of exempt devices
-and a set `N` of devices whose notification is pending) is in `Proofs/C03W*.lean`.
-Two necessity counterexamples (`wake_exec_false_cancel`, `wake_exec_false_target`) show that the
-restrictions on scripts and maintenance targets cannot be dropped.
+STAGE B.  SCOPE (`S3 w ⊇ S2 w`, decidable, preserved by every step: `s3_step`): in addition
+batchers (`Kind.batcher`, with or without a batch size), sources that generate batches
+(`genBatch ≠ 0`, also empty ones) and hence parts with `kids`.  If batchers or batch-generating
+sources exist (`¬ NoBatch w`), the world must also satisfy the conditions of the batcher theorems
+`C17W` / the conservation theorem C02: scripts schedule failures of non-sinks only (`ScrB`), every
+configured batch size is positive (`C17W.SizesPos`).
+
+STAGE C.  SCOPE (`S4 w ⊇ S3 w`, decidable, preserved by every step: `s4_step`): in addition the
+devices of ONE group (`Kind.gpath`, `Kind.ginput`, `Kind.goutput`): any number of group paths that
+share one group input and one group output (a "shared group": several lines use the same
+machines; the part leaves towards the downstream devices of the path it came in through — its
+`stack`).  The group records must be consistent (`GroupOK`): the group of a group path names a
+group input and a group output of the same group and registers the path; a group input has no
+upstream neighbour (it is reached through group paths only — necessary: `group_input_upstream_false`);
+every group path leads out through every group output (that is: there is one group).  The static
+bound on chains of controllers (gates, group inputs / paths / outputs) replaces the bound on chains
+of gates: every chain of controllers ends within `devs.length` controllers, costs the notification
+dispatch at most `2·devs.length + 1` recursion levels on the way back (`costLe`), and no device
+reaches itself through controllers (`cReach`).  Group devices count as "batch devices": with them
+the conditions `ScrB`, `SizesPos` of the conservation theorem are required (the proof uses C02's
+"no part is held twice").
+NOT covered: several groups (in sequence or nested).  Simulation of such worlds shows no violation,
+but the proof needs an invariant on the group-path stacks of the parts in flight (each entry's group
+owns the output the part will leave through) that the one-group restriction makes trivial.
+`S1 w ↔ SC w ∧ hasRes w = false ∧ NoBatch w ∧ PartsLeaf w` (`S1_iff`), `S2 w = S3 w ∧ NoBatch w`,
+`S3 w = S4 w ∧ NoGroups w`,
+`S4 w = SC w ∧ (hasRes w → C11W.S w) ∧ (¬ NoBatch w → ScrB w ∧ SizesPos w)`.
+
+DEFINITIONS.  `ready w d p` — `d` holds `p` (finished part of a handler / processor / batcher,
+supplied part of a source, head of a buffer) and `p` may leave now; `wouldAccept f w x p` — the pure
+acceptance predicate = the answer `give` would return (`give_answerB`, `give_answerC`; a group path
+pushes itself on the part's stack and asks the group input, a group output asks the downstream
+devices of the innermost group path of the stack; a processor with a
+requirement answers what its attempt to acquire, `procAcquire`, would answer: `procReal`; a buffer
+counts all parts of a batch: `canAcceptBasic`, `leafCount`); `wouldAcceptR` — the same, except that
+a processor that is REGISTERED with the resource manager (`waitingRes`, no reservation) counts as
+refusing; `Quiescent w`; `Wake w` (S1) / `WakeA w` (stages A, B) — every holder `d` of a part `p` has
+(W1) a live PASS_PART event of `d` queued for the due time of `p` or earlier (`Att`; due time =
+`now`, for the head of a buffer `max now (t + delay)`), or (W2) is flagged `waitingDS` and no
+downstream neighbour would accept `p` (`BlockedW` with `wouldAccept` / `BlockedR` with
+`wouldAcceptR`).  The third clause (W3) of stage A is the theorem `registered_refuses`: a processor
+that `wouldAcceptR` counts as refusing although its state would allow acceptance is registered, and
+either its request does not fit now or a live `rmCheck` event (the manager's availability check,
+which calls `procResourceCb` → `notify`) is queued for the current instant; hence `wake_w3`: every
+holder has (W1), or is flagged and genuinely blocked (W2), or is flagged and a live availability
+check is pending at `now` (W3).
+`Good w` (S1) = `S1`, the queue invariant of C01, `0 ≤ now`, no pending failure of a non-processor
+(`EvOK`), every held part exists (`HeldValid`), and `Wake`.  `GoodB w` (stages A, B) = the
+generalised invariant `G [] [] [] w` (scope `SC`, `C01.Inv`, `0 ≤ now`, `EvOK`, `HeldValid`,
+`KidsValid`, `StkOK` — if there is a group output, every entry of a part's stack is a group path —,
+registration `WR`, `WakeA`), and — if a requirement is declared — the resource
+invariant `C11W.Inv w`, and — if batchers / batches exist — the batcher and conservation invariant
+`C17W.CI w` (no part is held twice, the batchers are settled).  `GoodA w = GoodB w ∧ NoBatch w`.
+
+THEOREMS.  S1: `give_answer`, `wake_init`, `wake_exec`, `wake_step`, `wake_runLoop`,
+`wake_reachable`, `no_lost_wakeup`, `blocked_genuinely`, `wake_passPart`, `wake_notify`,
+`wake_acceptPart` (all as before, now corollaries of the generalised machinery).
+Stage A: `give_answerA`, `wakeA_init`, `wakeA_step`, `wakeA_runLoop`, `wakeA_reachable`,
+`wakeA_simulate`, `s2_step`, `blocked_genuinelyA`, `no_lost_wakeupA`, `no_lost_wakeupA_reachable`.
+Stage B: `give_answerB`, `wakeB_init`, `wakeB_exec`, `wakeB_step`, `wakeB_runLoop`,
+`wakeB_reachable`, `wakeB_simulate`, `s3_step`, `wakeA_of_good`, `registered_refuses`, `wake_w3`,
+`blocked_genuinelyB`, `no_lost_wakeupB`, `no_lost_wakeupB_reachable`.
+Stage C (same invariant `GoodB`): `give_answerC`, `tryList_answerC`, `refused_round_registersC`,
+`wakeC_init`, `wakeC_step`, `wakeC_runLoop`, `wakeC_reachable`, `wakeC_simulate`, `s4_step`,
+`s4_runLoop`, `blocked_genuinelyC`, `no_lost_wakeupC`, `no_lost_wakeupC_reachable`.
+The machinery (generalised invariant `G E N A` with a set `E` of exempt devices, a set `N` of
+devices whose notification is pending and a set `A` of batchers that have just notified) is in
+`Proofs/C03W*.lean`, `Proofs/C03X*.lean`.
+Necessity counterexamples: `wake_exec_false_cancel`, `wake_exec_false_target` (the restrictions on
+scripts and maintenance targets cannot be dropped), `cancel_manager_false` (in stage A a script must
+not cancel the manager's events); `group_input_upstream_false` (a device wired directly in front of
+a group input is never woken); `empty_batch_full_buffer_quiescent` (finding F12, repaired).
 -/
-import SimProc.Proofs.C03WWorld
+import SimProc.Proofs.C03XRes
 import SimProc.Props.C02
 
 namespace SimProc
@@ -45,11 +109,24 @@ def BlockedW (w : World) (d p : Nat) : Prop :=
 
 instance (w : World) (d p : Nat) : Decidable (BlockedW w d p) := by unfold BlockedW; infer_instance
 
+/-- (W2, stages A, B) `d` is flagged and no downstream neighbour would accept `p`, registered
+processors counted as refusing. -/
+def BlockedR (w : World) (d p : Nat) : Prop :=
+  (w.dev d).waitingDS = true ∧ ∀ y ∈ (w.dev d).down, wouldAcceptR w.fuel w y p = false
+
+instance (w : World) (d p : Nat) : Decidable (BlockedR w d p) := by unfold BlockedR; infer_instance
+
 /-- **The wake-up invariant** (decidable form: device indices bounded by the number of devices). -/
 def Wake (w : World) : Prop :=
   ∀ d ∈ List.range w.devs.length, ∀ p ∈ (holdsD (w.dev d)).toList, Att w d ∨ BlockedW w d p
 
 instance (w : World) : Decidable (Wake w) := by unfold Wake; infer_instance
+
+/-- **The wake-up invariant of stages A and B.** -/
+def WakeA (w : World) : Prop :=
+  ∀ d ∈ List.range w.devs.length, ∀ p ∈ (holdsD (w.dev d)).toList, Att w d ∨ BlockedR w d p
+
+instance (w : World) : Decidable (WakeA w) := by unfold WakeA; infer_instance
 
 /-- **Quiescent**: no ready part has a downstream neighbour that would accept it. -/
 def Quiescent (w : World) : Prop :=
@@ -58,33 +135,49 @@ def Quiescent (w : World) : Prop :=
 
 instance (w : World) : Decidable (Quiescent w) := by unfold Quiescent; infer_instance
 
-theorem blockedW_iff (w : World) (d p : Nat) : BlockedW w d p ↔ Blocked w [] d p := by
-  unfold BlockedW Blocked
-  simp only [wouldAcceptN_nil]
+theorem blockedR_iff (w : World) (d p : Nat) : BlockedR w d p ↔ Blocked w [] [] d p := Iff.rfl
 
-theorem wake_iff (w : World) : Wake w ↔ WakeG [] [] w := by
-  unfold Wake WakeG
+theorem noGrp_of_noBatch {w : World} (hb : NoBatch w) : NoGrp w := (noGroups_of_noBatch hb).noGrp
+
+theorem blockedW_iff {w : World} (hn : hasRes w = false) (hb : NoBatch w) (d p : Nat) :
+    BlockedW w d p ↔ Blocked w [] [] d p := by
+  unfold BlockedW Blocked
+  simp only [wouldAcceptN_nil hn (noGrp_of_noBatch hb)]
+
+theorem wakeA_iff (w : World) : WakeA w ↔ WakeG [] [] [] w := by
+  unfold WakeA WakeG
   constructor
   · intro h d p hd _
-    have := h d (by simpa using holdsD_lt hd) p (by simp [hd])
-    rwa [blockedW_iff] at this
+    exact h d (by simpa using holdsD_lt hd) p (by simp [hd])
   · intro h d _ p hp
     have hd : holdsD (w.dev d) = some p := by simpa using hp
-    have := h d p hd (by simp)
-    rwa [← blockedW_iff] at this
+    exact h d p hd (by simp)
+
+theorem wake_iff {w : World} (hn : hasRes w = false) (hb : NoBatch w) :
+    Wake w ↔ WakeG [] [] [] w := by
+  rw [← wakeA_iff]
+  unfold Wake WakeA
+  simp only [blockedW_iff hn hb, blockedR_iff]
 
 /-- `Wake` without the bound on the device index. -/
-theorem wake_spec (w : World) :
+theorem wake_spec {w : World} (hn : hasRes w = false) (hb : NoBatch w) :
     Wake w ↔ ∀ d p, holdsD (w.dev d) = some p → Att w d ∨ BlockedW w d p := by
-  rw [wake_iff]
+  rw [wake_iff hn hb]
   unfold WakeG
   constructor
   · intro h d p hd
     have := h d p hd (by simp)
-    rwa [← blockedW_iff] at this
+    rwa [← blockedW_iff hn hb] at this
   · intro h d p hd _
     have := h d p hd
-    rwa [blockedW_iff] at this
+    rwa [blockedW_iff hn hb] at this
+
+/-- `WakeA` without the bound on the device index. -/
+theorem wakeA_spec (w : World) :
+    WakeA w ↔ ∀ d p, holdsD (w.dev d) = some p → Att w d ∨ BlockedR w d p := by
+  rw [wakeA_iff]
+  unfold WakeG
+  exact ⟨fun h d p hd => h d p hd (by simp), fun h d p hd _ => h d p hd⟩
 
 /-- For a READY part, (W1) is a live PASS_PART event of `d` for exactly the present instant (the
 queue invariant of C01 excludes events in the past). -/
@@ -108,7 +201,7 @@ theorem quiescent_iff (w : World) :
   · intro h d _ p hp hex x hx
     exact h d p x ⟨by simpa using hp, hex⟩ hx
 
-/-- Everything the closed-world induction carries. -/
+/-- Everything the closed-world induction carries (stage S1). -/
 structure Good (w : World) : Prop where
   s1 : S1 w
   inv : C01.Inv w.env
@@ -117,24 +210,97 @@ structure Good (w : World) : Prop where
   valid : HeldValid w
   wake : Wake w
 
-theorem good_iff (w : World) : Good w ↔ G [] [] w :=
-  ⟨fun h => ⟨h.s1, h.inv, h.now0, h.ev, h.valid, (wake_iff w).mp h.wake⟩,
-   fun h => ⟨h.s1, h.inv, h.now0, h.ev, h.valid, (wake_iff w).mpr h.wake⟩⟩
+theorem kidsValid_of_leaf {w : World} (h : PartsLeaf w) : KidsValid w := by
+  intro r hr l hl
+  rw [h r hr] at hl; cases hl
+
+theorem stkOK_of_noParts {w : World} (h : w.parts = []) : StkOK w :=
+  Or.inr (fun r hr => by rw [h] at hr; cases hr)
+
+theorem stkOK_of_noBatch {w : World} (hb : NoBatch w) : StkOK w :=
+  Or.inl (fun x => (noBatch_grp hb x).2.2)
+
+/-- `Good` is the generalised invariant in a world without resource requirements, batchers and
+batch-generating sources. -/
+theorem good_iff (w : World) : Good w ↔ G [] [] [] w ∧ hasRes w = false ∧ NoBatch w := by
+  constructor
+  · intro h
+    have hpl : PartsLeaf w := ((S1_iff w).mp h.s1).2.2.2
+    exact ⟨⟨h.s1.sc, fun _ => hpl, h.inv, h.now0, h.ev, h.valid, kidsValid_of_leaf hpl,
+      stkOK_of_noBatch h.s1.noBatch, Or.inl h.s1.noRes, (fun _ hx => nomatch hx),
+      (wake_iff h.s1.noRes h.s1.noBatch).mp h.wake⟩,
+      h.s1.noRes, h.s1.noBatch⟩
+  · rintro ⟨h, hn, hb⟩
+    exact ⟨(S1_iff w).mpr ⟨h.sc, hn, hb, h.pl hb⟩, h.inv, h.now0, h.ev, h.valid,
+      (wake_iff hn hb).mpr h.wake⟩
+
+theorem invB_of_noBatch {w : World} (hb : NoBatch w) : InvB w := fun hn => absurd hb hn
+
+theorem settled_of_noBatch {w : World} (hb : NoBatch w) : Settled w :=
+  fun x hk _ => absurd hk (noBatch_dev hb x).1
+
+theorem Good.goodB {w : World} (h : Good w) : GoodB w :=
+  ⟨((good_iff w).mp h).1, (fun hr => by rw [h.s1.noRes] at hr; cases hr),
+    fun hn => absurd h.s1.noBatch hn⟩
+
+/-- the invariant of stage A: that of stage B, without batchers and batch-generating sources -/
+structure GoodA (w : World) : Prop where
+  b : GoodB w
+  nb : NoBatch w
 
 /-! ### (a) the acceptance predicate -/
 
-/-- **(a)** In an S1 world the Boolean answer of `give` is `wouldAccept`: it depends neither on the
-order in which the downstream devices are tried nor on anything `give` changes on the way. -/
+/-- **(a, stages A and B)** In a world of the scope the Boolean answer of `give` is `wouldAccept`:
+it depends neither on the order in which the downstream devices are tried nor on anything `give`
+changes on the way (a refusing processor registers with the resource manager — that does not
+change anybody's answer). -/
+theorem give_answerC (f : Nat) (w : World) (x p : Nat) (h : S4 w) (hp : p < w.parts.length) :
+    (give f w x p).2 = wouldAccept f w x p :=
+  give_answer_eq f w x p h.1.kok (Or.inl hp)
+
+/-- Without group devices the part need not exist. -/
+theorem give_answerB (f : Nat) (w : World) (x p : Nat) (h : S3 w) :
+    (give f w x p).2 = wouldAccept f w x p :=
+  give_answer_eq f w x p h.1.1.kok (Or.inr h.2.noGrp)
+
+theorem give_answerA (f : Nat) (w : World) (x p : Nat) (h : S2 w) :
+    (give f w x p).2 = wouldAccept f w x p :=
+  give_answerB f w x p h.s3
+
+/-- **(a)** In an S1 world the Boolean answer of `give` is `wouldAccept`. -/
 theorem give_answer (f : Nat) (w : World) (x p : Nat) (h : S1 w) :
     (give f w x p).2 = wouldAccept f w x p :=
-  give_answer_eq f w x p h.kok
+  give_answerA f w x p h.s2
 
 /-- The same for a whole offer round: it succeeds iff some downstream device would accept. -/
-theorem tryList_answer' (w : World) (x p : Nat) (h : S1 w) :
+theorem tryList_answerC (w : World) (x p : Nat) (h : S4 w) (hp : p < w.parts.length) :
     (tryList givePart w (w.sortedDown x) p).2 =
       (w.dev x).down.any (fun y => wouldAccept w.fuel w y p) := by
-  rw [tryList_givePart_answer w _ p h.kok]
+  rw [tryList_givePart_answer w _ p h.1.kok (Or.inl hp)]
   exact any_perm (C08.sortedDown_perm w x) _
+
+theorem tryList_answerB (w : World) (x p : Nat) (h : S3 w) :
+    (tryList givePart w (w.sortedDown x) p).2 =
+      (w.dev x).down.any (fun y => wouldAccept w.fuel w y p) := by
+  rw [tryList_givePart_answer w _ p h.1.1.kok (Or.inr h.2.noGrp)]
+  exact any_perm (C08.sortedDown_perm w x) _
+
+theorem tryList_answer' (w : World) (x p : Nat) (h : S1 w) :
+    (tryList givePart w (w.sortedDown x) p).2 =
+      (w.dev x).down.any (fun y => wouldAccept w.fuel w y p) :=
+  tryList_answerB w x p h.s2.s3
+
+/-- After a refused offer round every downstream device refuses in the invariant's sense: a
+processor that refused for want of resources is registered now. -/
+theorem refused_round_registersC {w w1 : World} (h : S4 w) {x p : Nat} (hp : p < w.parts.length)
+    (ht : tryList givePart w (w.sortedDown x) p = (w1, false)) :
+    ∀ y ∈ (w.dev x).down, wouldAcceptR w.fuel w1 y p = false :=
+  (tryGive_refused h.1 (Or.inl hp) ht).2
+
+theorem refused_round_registers {w w1 : World} (h : S3 w) {x p : Nat}
+    (ht : tryList givePart w (w.sortedDown x) p = (w1, false)) :
+    ∀ y ∈ (w.dev x).down, wouldAcceptR w.fuel w1 y p = false :=
+  (tryGive_refused h.1.1 (Or.inr h.2.noGrp) ht).2
 
 /-! ### 1. initialisation -/
 
@@ -144,9 +310,15 @@ theorem heldValid_fresh {w : World} (h : C02.Fresh w) : HeldValid w := by
   have := h.2.2.2.2 d hd
   unfold C02.held at this
   unfold heldL at hp
-  have hpp : p ∈ d.part.toList ++ d.output.toList ++ d.buf.map (·.2) ++ d.inprog.toList :=
-    List.mem_append_left _ hp
-  rw [this] at hpp; cases hpp
+  rw [this] at hp; cases hp
+
+theorem wakeG_fresh {w : World} (h : C02.Fresh w) : WakeG [] [] [] w := by
+  intro d p hd' _
+  have h1 := holdsD_mem_heldL hd'
+  have := h.2.2.2.2 (w.dev d) (dev_mem (holdsD_lt hd'))
+  unfold C02.held at this
+  unfold heldL at h1
+  rw [this] at h1; cases h1
 
 theorem wake_fresh {w : World} (h : C02.Fresh w) : Wake w := by
   intro d hd p hp
@@ -155,9 +327,10 @@ theorem wake_fresh {w : World} (h : C02.Fresh w) : Wake w := by
   have := h.2.2.2.2 (w.dev d) (dev_mem (by simpa using hd))
   unfold C02.held at this
   unfold heldL at h1
-  have hpp : p ∈ (w.dev d).part.toList ++ (w.dev d).output.toList ++ (w.dev d).buf.map (·.2) ++
-      (w.dev d).inprog.toList := List.mem_append_left _ h1
-  rw [this] at hpp; cases hpp
+  rw [this] at h1; cases h1
+
+theorem partsLeaf_fresh {w : World} (h : C02.Fresh w) : PartsLeaf w := by
+  intro r hr; rw [h.1] at hr; cases hr
 
 /-- A fresh S1 world (queue invariant, clock not negative, no pending failure of a non-processor)
 is good. -/
@@ -168,7 +341,38 @@ theorem good_fresh {w : World} (hs : S1 w) (hi : C01.Inv w.env) (h0 : 0 ≤ w.no
 /-- **1. `wake_init`**: after `simulateInit` of a fresh S1 world the invariant holds. -/
 theorem wake_init {w : World} (hs : S1 w) (hi : C01.Inv w.env) (h0 : 0 ≤ w.now) (he : EvOK w)
     (hf : C02.Fresh w) : Good w.simulateInit :=
-  (good_iff _).mpr (((good_iff w).mp (good_fresh hs hi h0 he hf)).simulateInitG)
+  (good_iff _).mpr ⟨((good_iff w).mp (good_fresh hs hi h0 he hf)).1.simulateInitG,
+    by rw [hasRes_of_ss (C02V.ss_simulateInit w)]; exact hs.noRes,
+    (noBatch_of_sw (sw_simulateInit w).sw_eq).mpr hs.noBatch⟩
+
+/-- Fresh worlds of stages A and B: nobody holds anything (`C02.Fresh`), no device is flagged as
+waiting for resources, and — if a requirement is declared — the resource manager is fresh
+(`C11W.FreshR`: not initialised, no reservations, nobody waiting, …). -/
+def FreshA (w : World) : Prop :=
+  C02.Fresh w ∧ NoFlag w ∧ (hasRes w = true → C11W.FreshR w)
+
+/-- **1C. `wakeC_init`**: after `simulateInit` of a fresh world of the scope the invariant of
+stages B and C holds. -/
+theorem wakeC_init {w : World} (hs : S4 w) (hi : C01.Inv w.env) (h0 : 0 ≤ w.now) (he : EvOK w)
+    (hf : FreshA w) : GoodB w.simulateInit := by
+  have hg : G [] [] [] w :=
+    ⟨hs.1, fun _ => partsLeaf_fresh hf.1, hi, h0, he, heldValid_fresh hf.1,
+      kidsValid_of_leaf (partsLeaf_fresh hf.1), stkOK_of_noParts hf.1.1,
+      wr_fresh hf.2.1 (fun hr => (hf.2.2 hr).2.2.1), (fun _ hx => nomatch hx), wakeG_fresh hf.1⟩
+  refine ⟨hg.simulateInitG, fun hr => ?_, fun hn => ?_⟩
+  · rw [hasRes_of_ss (C02V.ss_simulateInit w)] at hr
+    exact C11W.inv_simulateInit w (hs.2.1 hr) (hf.2.2 hr)
+  · have hn0 : ¬ NoBatch w := fun hb => hn ((noBatch_of_sw (sw_simulateInit w).sw_eq).mpr hb)
+    exact C17W.ci_init w ⟨hf.1, static_of hs.1 (hs.2.2 hn0).1 he, (hs.2.2 hn0).2⟩
+
+/-- **1B. `wakeB_init`**. -/
+theorem wakeB_init {w : World} (hs : S3 w) (hi : C01.Inv w.env) (h0 : 0 ≤ w.now) (he : EvOK w)
+    (hf : FreshA w) : GoodB w.simulateInit := wakeC_init hs.s4 hi h0 he hf
+
+/-- **1A. `wakeA_init`**. -/
+theorem wakeA_init {w : World} (hs : S2 w) (hi : C01.Inv w.env) (h0 : 0 ≤ w.now) (he : EvOK w)
+    (hf : FreshA w) : GoodA w.simulateInit :=
+  ⟨wakeB_init hs.s3 hi h0 he hf, (noBatch_of_sw (sw_simulateInit w).sw_eq).mpr hs.2⟩
 
 /-! ### 2. every event preserves the invariant -/
 
@@ -176,38 +380,95 @@ theorem wake_init {w : World} (hs : S1 w) (hi : C01.Inv w.env) (h0 : 0 ≤ w.now
 attempt has just been popped), then after `passPart d` it holds for every device: `d` has handed
 its part over, or has queued a new attempt (buffer head not yet due), or is flagged with no
 downstream device willing. -/
-theorem wake_passPart {w : World} {d : Nat} (h : G [d] [] w) : Good (w.passPart d) :=
-  (good_iff _).mpr h.passPartG
+theorem wake_passPart {w : World} {d : Nat} (h : G [d] [] [] w) (hn : hasRes w = false)
+    (hb : NoBatch w) : Good (w.passPart d) :=
+  (good_iff _).mpr ⟨h.passPartG (invB_of_noBatch hb) (settled_of_noBatch hb),
+    by rw [hasRes_of_sd (C02V.sd_passPart w d)]; exact hn,
+    (noBatch_of_swv (C02V.swv_passPart w d)).mpr hb⟩
 
 /-- **(c)** a notification never destroys the invariant … -/
 theorem wake_notify {w : World} (h : Good w) (x : Nat) : Good (w.notify x) :=
-  (good_iff _).mpr (((good_iff w).mp h).notify x (fun _ hy => Or.inr hy))
+  (good_iff _).mpr ⟨((good_iff w).mp h).1.notify x (fun _ hy => Or.inr hy),
+    by rw [hasRes_of_sd (C02V.sd_notify w x)]; exact h.s1.noRes,
+    (noBatch_of_swv (C02V.swv_notify w x)).mpr h.s1.noBatch⟩
 
 /-- **(c)** … nor does a downstream device accepting a part. -/
 theorem wake_acceptPart {w : World} (h : Good w) (x p : Nat) (hp : p < w.parts.length) :
     Good (w.acceptPart x p) :=
-  (good_iff _).mpr (((good_iff w).mp h).acceptPart x p hp)
+  (good_iff _).mpr ⟨((good_iff w).mp h).1.acceptPart x p hp
+      (fun hk => absurd hk (noBatch_dev h.s1.noBatch x).1),
+    by rw [hasRes_of_sd (C02V.sd_acceptPart w x p)]; exact h.s1.noRes,
+    (noBatch_of_swv (C02V.swv_acceptPart w x p)).mpr h.s1.noBatch⟩
 
 /-- **2. `wake_exec`** — one lemma for all twelve action kinds: `terminate`, `script k`,
 `finishCycle d`, `passPart d` (with `d` exempt beforehand: its attempt has just been popped),
 `fail d` (of a processor), `releaseIfIdle d`, `rmCheck`, `startWork`, `finishWork`, `schedUpdate`,
 `periodicSense`, `unknown`. -/
-theorem wake_exec {w : World} (a : Action) (h : G (exemptA a) [] w)
-    (ha : ∀ d, a = .fail d → (w.dev d).kind = .processor) : Good (w.exec a) :=
-  (good_iff _).mpr (h.execG a ha)
+theorem wake_exec {w : World} (a : Action) (h : G (exemptA a) [] [] w) (hn : hasRes w = false)
+    (hb : NoBatch w) (ha : ∀ d, a = .fail d → (w.dev d).kind = .processor) : Good (w.exec a) :=
+  (good_iff _).mpr ⟨h.execG a ha (invB_of_noBatch hb) (settled_of_noBatch hb),
+    by rw [hasRes_of_ss (nr_exec w a h.sc.nr)]; exact hn,
+    (noBatch_of_sw (sw_exec w a h.sc.nr).sw_eq).mpr hb⟩
+
+/-- The same for stages A and B (the wake-up part of the invariant; the resource part is
+`C11W.inv_exec`, the batcher part `C17W`): if batchers or batches exist, the conservation
+invariant of C02 must hold and the batchers must be settled. -/
+theorem wakeB_exec {w : World} (a : Action) (h : G (exemptA a) [] [] w)
+    (ha : ∀ d, a = .fail d → (w.dev d).kind = .processor) (hI : InvB w) (hset : Settled w) :
+    G [] [] [] (w.exec a) :=
+  h.execG a ha hI hset
 
 /-- For every action other than `passPart` the hypothesis of `wake_exec` is `Good w`. -/
 theorem wake_exec' {w : World} (a : Action) (h : Good w) (hp : ∀ d, a ≠ .passPart d)
     (ha : ∀ d, a = .fail d → (w.dev d).kind = .processor) : Good (w.exec a) := by
-  refine wake_exec a ?_ ha
+  refine wake_exec a ?_ h.s1.noRes h.s1.noBatch ha
   have : exemptA a = [] := by
     cases a <;> first | rfl | exact absurd rfl (hp _)
-  rw [this]; exact (good_iff w).mp h
+  rw [this]; exact ((good_iff w).mp h).1
 
-/-- **2. `wake_step`**: `Environment.step` (pop, set the clock, run the action unless cancelled)
-preserves the invariant — including `S1`, the queue invariant, `EvOK`, `HeldValid`. -/
+/-- **2B. `wakeB_step`**: `Environment.step` (pop, set the clock, run the action unless cancelled)
+preserves the invariant of stage B — including the scope of the machinery, the queue invariant,
+`EvOK`, `HeldValid`, the registration invariant, the resource invariant of C11W and the batcher /
+conservation invariant of C17W. -/
+theorem wakeB_step {w w' : World} {e : Event} (h : GoodB w) (hst : w.step = some (e, w')) :
+    GoodB w' := h.step hst
+
+/-- **2C. `wakeC_step`** = `wakeB_step`: the invariant covers group devices too. -/
+theorem wakeC_step {w w' : World} {e : Event} (h : GoodB w) (hst : w.step = some (e, w')) :
+    GoodB w' := h.step hst
+
+/-- The scope of stage C is preserved by every step. -/
+theorem s4_step {w w' : World} {e : Event} (hs : S4 w) (h : GoodB w) (hst : w.step = some (e, w')) :
+    S4 w' :=
+  hs.of_sw (h.step hst).g.sc (sw_step w w' e h.g.sc.nr hst) (nr_step w w' e h.g.sc.nr hst)
+
+theorem s4_runLoop (n : Nat) {w : World} (hs : S4 w) (h : GoodB w) : S4 (runLoop n w) :=
+  hs.of_sw (h.runLoop n).g.sc (sw_runLoop n w h.g.sc.nr) (nr_runLoop n w h.g.sc.nr)
+
+/-- The scope of stage B is preserved by every step. -/
+theorem s3_step {w w' : World} {e : Event} (hs : S3 w) (h : GoodB w) (hst : w.step = some (e, w')) :
+    S3 w' :=
+  hs.of_sw (h.step hst).g.sc (sw_step w w' e h.g.sc.nr hst) (nr_step w w' e h.g.sc.nr hst)
+
+theorem s3_runLoop (n : Nat) {w : World} (hs : S3 w) (h : GoodB w) : S3 (runLoop n w) :=
+  hs.of_sw (h.runLoop n).g.sc (sw_runLoop n w h.g.sc.nr) (nr_runLoop n w h.g.sc.nr)
+
+/-- **2A. `wakeA_step`**. -/
+theorem wakeA_step {w w' : World} {e : Event} (h : GoodA w) (hst : w.step = some (e, w')) :
+    GoodA w' :=
+  ⟨h.b.step hst, (noBatch_of_sw (sw_step w w' e h.b.g.sc.nr hst).sw_eq).mpr h.nb⟩
+
+/-- The scope of stage A is preserved by every step. -/
+theorem s2_step {w w' : World} {e : Event} (hs : S2 w) (h : GoodA w) (hst : w.step = some (e, w')) :
+    S2 w' :=
+  ⟨s3_step hs.s3 h.b hst, (wakeA_step h hst).nb⟩
+
+/-- **2. `wake_step`**: `Environment.step` preserves the invariant — including `S1`, the queue
+invariant, `EvOK`, `HeldValid`. -/
 theorem wake_step {w w' : World} {e : Event} (h : Good w) (hst : w.step = some (e, w')) : Good w' :=
-  (good_iff _).mpr (((good_iff w).mp h).stepG hst)
+  (good_iff _).mpr ⟨(h.goodB.step hst).g,
+    by rw [hasRes_of_ss (nr_step w w' e h.s1.sc.nr hst)]; exact h.s1.noRes,
+    (noBatch_of_sw (sw_step w w' e h.s1.sc.nr hst).sw_eq).mpr h.s1.noBatch⟩
 
 /-- `S1` is preserved by every step. -/
 theorem s1_step {w w' : World} {e : Event} (h : Good w) (hst : w.step = some (e, w')) : S1 w' :=
@@ -217,22 +478,70 @@ theorem s1_step {w w' : World} {e : Event} (h : Good w) (hst : w.step = some (e,
 
 /-- **3. `wake_runLoop`**. -/
 theorem wake_runLoop (n : Nat) {w : World} (h : Good w) : Good (runLoop n w) :=
-  (good_iff _).mpr (((good_iff w).mp h).runLoopG n)
+  (good_iff _).mpr ⟨(h.goodB.runLoop n).g,
+    by rw [hasRes_of_ss (nr_runLoop n w h.s1.sc.nr)]; exact h.s1.noRes,
+    (noBatch_of_sw (sw_runLoop n w h.s1.sc.nr).sw_eq).mpr h.s1.noBatch⟩
+
+theorem wakeB_runLoop (n : Nat) {w : World} (h : GoodB w) : GoodB (runLoop n w) := h.runLoop n
+
+theorem wakeC_runLoop (n : Nat) {w : World} (h : GoodB w) : GoodB (runLoop n w) := h.runLoop n
+
+theorem wakeA_runLoop (n : Nat) {w : World} (h : GoodA w) : GoodA (runLoop n w) :=
+  ⟨h.b.runLoop n, (noBatch_of_sw (sw_runLoop n w h.b.g.sc.nr).sw_eq).mpr h.nb⟩
 
 /-- In every state reachable from an initialised fresh S1 world the invariant holds. -/
 theorem wake_reachable (n : Nat) {w : World} (hs : S1 w) (hi : C01.Inv w.env) (h0 : 0 ≤ w.now)
     (he : EvOK w) (hf : C02.Fresh w) : Good (runLoop n w.simulateInit) :=
   wake_runLoop n (wake_init hs hi h0 he hf)
 
+/-- **3B.** In every state reachable from an initialised fresh world of the scope of stage B the
+invariant holds. -/
+theorem wakeB_reachable (n : Nat) {w : World} (hs : S3 w) (hi : C01.Inv w.env) (h0 : 0 ≤ w.now)
+    (he : EvOK w) (hf : FreshA w) : GoodB (runLoop n w.simulateInit) :=
+  wakeB_runLoop n (wakeB_init hs hi h0 he hf)
+
+/-- **3C.** In every state reachable from an initialised fresh world of the scope of stage C the
+invariant holds. -/
+theorem wakeC_reachable (n : Nat) {w : World} (hs : S4 w) (hi : C01.Inv w.env) (h0 : 0 ≤ w.now)
+    (he : EvOK w) (hf : FreshA w) : GoodB (runLoop n w.simulateInit) :=
+  wakeC_runLoop n (wakeC_init hs hi h0 he hf)
+
+/-- **3A.** -/
+theorem wakeA_reachable (n : Nat) {w : World} (hs : S2 w) (hi : C01.Inv w.env) (h0 : 0 ≤ w.now)
+    (he : EvOK w) (hf : FreshA w) : GoodA (runLoop n w.simulateInit) :=
+  wakeA_runLoop n (wakeA_init hs hi h0 he hf)
+
 /-- `Environment.run(d)` begins by scheduling the terminate event: the invariant is kept. -/
 theorem wake_runBegin {w : World} (h : Good w) (d : Int) : Good (w.runBegin d).1 :=
-  (good_iff _).mpr (((good_iff w).mp h).runBeginG d)
+  (good_iff _).mpr ⟨((good_iff w).mp h).1.runBeginG d,
+    by rw [hasRes_of_ss (ss_runBegin w d)]; exact h.s1.noRes,
+    (noBatch_of_sw (sw_runBegin w d).sw_eq).mpr h.s1.noBatch⟩
+
+theorem wakeB_runBegin {w : World} (h : GoodB w) (d : Int) : GoodB (w.runBegin d).1 := h.runBegin d
+
+theorem wakeA_runBegin {w : World} (h : GoodA w) (d : Int) : GoodA (w.runBegin d).1 :=
+  ⟨h.b.runBegin d, (noBatch_of_sw (sw_runBegin w d).sw_eq).mpr h.nb⟩
 
 /-- `System.simulate(d)` = initialise, begin the run, loop: every state reached is good. -/
 theorem wake_simulate (n : Nat) (d : Int) {w : World} (hs : S1 w) (hi : C01.Inv w.env)
     (h0 : 0 ≤ w.now) (he : EvOK w) (hf : C02.Fresh w) :
     Good (runLoop n (w.simulateInit.runBegin d).1) :=
   wake_runLoop n (wake_runBegin (wake_init hs hi h0 he hf) d)
+
+theorem wakeB_simulate (n : Nat) (d : Int) {w : World} (hs : S3 w) (hi : C01.Inv w.env)
+    (h0 : 0 ≤ w.now) (he : EvOK w) (hf : FreshA w) :
+    GoodB (runLoop n (w.simulateInit.runBegin d).1) :=
+  wakeB_runLoop n (wakeB_runBegin (wakeB_init hs hi h0 he hf) d)
+
+theorem wakeC_simulate (n : Nat) (d : Int) {w : World} (hs : S4 w) (hi : C01.Inv w.env)
+    (h0 : 0 ≤ w.now) (he : EvOK w) (hf : FreshA w) :
+    GoodB (runLoop n (w.simulateInit.runBegin d).1) :=
+  wakeC_runLoop n (wakeB_runBegin (wakeC_init hs hi h0 he hf) d)
+
+theorem wakeA_simulate (n : Nat) (d : Int) {w : World} (hs : S2 w) (hi : C01.Inv w.env)
+    (h0 : 0 ≤ w.now) (he : EvOK w) (hf : FreshA w) :
+    GoodA (runLoop n (w.simulateInit.runBegin d).1) :=
+  wakeA_runLoop n (wakeA_runBegin (wakeA_init hs hi h0 he hf) d)
 
 /-- "time is about to advance": the next event to be popped (if any) lies in the future -/
 def ClockAdvances (w : World) : Prop := ∀ e, w.env.events.head? = some e → w.now < e.time
@@ -259,24 +568,112 @@ theorem no_event_now {w : World} (hi : C01.Inv w.env) (hc : ClockAdvances w) :
       have := Event.nlt_time (hs.head_min e he)
       omega
 
+/-! ### 4. the statements of stages A and B -/
+
+/-- what `GoodB` says about holders, in decidable form -/
+theorem wakeA_of_good {w : World} (h : GoodB w) : WakeA w := (wakeA_iff w).mpr h.g.wake
+
+/-- **(W3) `registered_refuses`.**  In a reachable state, a processor that the invariant counts as
+refusing for want of resources (declared requirement, no reservation, registered with the resource
+manager) cannot get its resources now — or a live availability check (`rmCheck`, which will call
+`procResourceCb` and thereby notify upstream) is queued for the current instant. -/
+theorem registered_refuses {w : World} (h : GoodB w) (y : Nat) (hk : (w.dev y).kind = .processor)
+    (hm : procM (w.dev y) = false) :
+    procReal w y = false ∨ C11W.QueuedL w .rmCheck w.now pOtherHigh (-1) :=
+  h.registered y hk hm
+
+/-- **The three clauses.**  Every holder `d` of a part `p` has (W1) a live hand-over attempt queued,
+or (W2) is flagged and NO downstream neighbour would accept `p` (`wouldAccept`: what `give` would
+really answer, resources included), or (W3) is flagged and a live availability check of the
+resource manager is queued for the current instant. -/
+theorem wake_w3 {w : World} (h : GoodB w) (d p : Nat) (hd : holdsD (w.dev d) = some p) :
+    Att w d ∨ BlockedW w d p ∨
+      ((w.dev d).waitingDS = true ∧ C11W.QueuedL w .rmCheck w.now pOtherHigh (-1)) := by
+  rcases h.g.wake d p hd (by simp) with ha | hb
+  · exact Or.inl ha
+  · by_cases hq : C11W.QueuedL w .rmCheck w.now pOtherHigh (-1)
+    · exact Or.inr (Or.inr ⟨hb.1, hq⟩)
+    · exact Or.inr (Or.inl ⟨hb.1, fun y hy => h.real_of_R hq _ y p (hb.2 y hy)⟩)
+
+/-- **4B. `blocked_genuinelyB`**: when time is about to advance, every ready part is flagged and no
+downstream neighbour would accept it — the answer `give` would return, resources and batch sizes
+included. -/
+theorem blocked_genuinelyB {w : World} (h : GoodB w) (hc : ClockAdvances w) (d p : Nat)
+    (hr : ready w d p) : BlockedW w d p := by
+  have hadv := no_event_now h.g.inv hc
+  rcases wake_w3 h d p hr.1 with ⟨e, he, _, _, _, ht⟩ | hb | ⟨_, hq⟩
+  · exfalso
+    have := hadv e he
+    rw [dueD_of_expired hr.2] at ht
+    omega
+  · exact hb
+  · exact absurd hq (no_check_of_advance hadv)
+
+theorem blocked_genuinelyA {w : World} (h : GoodA w) (hc : ClockAdvances w) (d p : Nat)
+    (hr : ready w d p) : BlockedW w d p := blocked_genuinelyB h.b hc d p hr
+
+/-- **3B. `no_lost_wakeupB`**: when time is about to advance (the queue is empty or its first event
+lies in the future), the state is quiescent. -/
+theorem no_lost_wakeupB {w : World} (h : GoodB w) (hc : ClockAdvances w) : Quiescent w := by
+  rw [quiescent_iff]
+  intro d p x hr hx
+  exact (blocked_genuinelyB h hc d p hr).2 x hx
+
+theorem no_lost_wakeupA {w : World} (h : GoodA w) (hc : ClockAdvances w) : Quiescent w :=
+  no_lost_wakeupB h.b hc
+
+/-- **The closed-world statement of stage B**: in every state reachable by `runLoop` from an
+initialised fresh world of the scope `S3`, whenever the clock is about to advance no ready part
+could be handed over. -/
+theorem no_lost_wakeupB_reachable (n : Nat) {w : World} (hs : S3 w) (hi : C01.Inv w.env)
+    (h0 : 0 ≤ w.now) (he : EvOK w) (hf : FreshA w)
+    (hc : ClockAdvances (runLoop n w.simulateInit)) : Quiescent (runLoop n w.simulateInit) :=
+  no_lost_wakeupB (wakeB_reachable n hs hi h0 he hf) hc
+
+/-- **4C.** `blocked_genuinelyC` = `blocked_genuinelyB` (the invariant `GoodB` covers group devices):
+a ready part inside or in front of a group is flagged, and no downstream neighbour — group path,
+group input, group output … — would pass it on to anybody who accepts. -/
+theorem blocked_genuinelyC {w : World} (h : GoodB w) (hc : ClockAdvances w) (d p : Nat)
+    (hr : ready w d p) : BlockedW w d p := blocked_genuinelyB h hc d p hr
+
+theorem no_lost_wakeupC {w : World} (h : GoodB w) (hc : ClockAdvances w) : Quiescent w :=
+  no_lost_wakeupB h hc
+
+/-- **The closed-world statement of stage C**: in every state reachable by `runLoop` from an
+initialised fresh world of the scope `S4` (one group, shared by any number of group paths),
+whenever the clock is about to advance no ready part could be handed over. -/
+theorem no_lost_wakeupC_reachable (n : Nat) {w : World} (hs : S4 w) (hi : C01.Inv w.env)
+    (h0 : 0 ≤ w.now) (he : EvOK w) (hf : FreshA w)
+    (hc : ClockAdvances (runLoop n w.simulateInit)) : Quiescent (runLoop n w.simulateInit) :=
+  no_lost_wakeupC (wakeC_reachable n hs hi h0 he hf) hc
+
+/-- Stage C is PARTIAL with respect to "groups" in general: `S4` admits ONE group (shared by any
+number of group paths).  Missing: several groups, in sequence or nested (no counterexample found by
+simulation; the proof would need an invariant tying every entry of a part's group-path stack to the
+group output the part will leave through). -/
+theorem no_lost_wakeupC_partial (n : Nat) {w : World} (hs : S4 w) (hi : C01.Inv w.env)
+    (h0 : 0 ≤ w.now) (he : EvOK w) (hf : FreshA w)
+    (hc : ClockAdvances (runLoop n w.simulateInit)) : Quiescent (runLoop n w.simulateInit) :=
+  no_lost_wakeupC_reachable n hs hi h0 he hf hc
+
+/-- **The closed-world statement of stage A.** -/
+theorem no_lost_wakeupA_reachable (n : Nat) {w : World} (hs : S2 w) (hi : C01.Inv w.env)
+    (h0 : 0 ≤ w.now) (he : EvOK w) (hf : FreshA w)
+    (hc : ClockAdvances (runLoop n w.simulateInit)) : Quiescent (runLoop n w.simulateInit) :=
+  no_lost_wakeupB_reachable n hs.s3 hi h0 he hf hc
+
+/-! ### 4. the statements of stage S1 -/
+
 /-- **4. `blocked_genuinely`**: when time is about to advance, every ready part is flagged and no
 downstream neighbour would accept it. -/
 theorem blocked_genuinely {w : World} (h : Good w) (hc : ClockAdvances w) (d p : Nat)
-    (hr : ready w d p) : BlockedW w d p := by
-  have hw := (wake_iff w).mp h.wake d p hr.1 (by simp)
-  rcases hw with ⟨e, he, _, _, _, ht⟩ | hb
-  · exfalso
-    have := no_event_now h.inv hc e he
-    rw [dueD_of_expired hr.2] at ht
-    omega
-  · exact (blockedW_iff w d p).mpr hb
+    (hr : ready w d p) : BlockedW w d p :=
+  blocked_genuinelyB h.goodB hc d p hr
 
 /-- **3. `no_lost_wakeup`**: when time is about to advance (the queue is empty or its first event
 lies in the future), the state is quiescent. -/
-theorem no_lost_wakeup {w : World} (h : Good w) (hc : ClockAdvances w) : Quiescent w := by
-  rw [quiescent_iff]
-  intro d p x hr hx
-  exact (blocked_genuinely h hc d p hr).2 x hx
+theorem no_lost_wakeup {w : World} (h : Good w) (hc : ClockAdvances w) : Quiescent w :=
+  no_lost_wakeupB h.goodB hc
 
 /-- The closed-world statement: in every state reachable by `runLoop` from an initialised fresh S1
 world, whenever the clock is about to advance no ready part could be handed over. -/
@@ -428,6 +825,262 @@ theorem empty_batch_full_buffer_quiescent :
     ready (cexBatch.exec (.script 0)) 0 1 ∧
     ((cexBatch.exec (.script 0)).givePart 1 1).2 = false ∧
     Quiescent (cexBatch.exec (.script 0)) ∧ Wake (cexBatch.exec (.script 0)) := by decide
+
+/-! ### non-vacuity, stage A -/
+
+/-- one scripted event: at t = 5 script 0 adds one unit of capacity to pool 0 -/
+def exEnvA : Env :=
+  (({ terminated := false } : Env).applyAll Arith.exact [.sched 5 0 (Action.script 0).toNat 8 0]).1
+
+/-- source 0 (cycle 1, 3 parts) → processor 1 (cycle 2, needs one unit of pool 0) → sink 2; the pool
+has capacity 0 until the script adds a unit at t = 5 -/
+def exRes : World :=
+  { env := exEnvA
+    scripts := [[.addRes 0 1]]
+    rm := { pools := [(0, 0, 0)] }
+    devs := [{ kind := .source, aid := 1, down := [1], cycle := 1, maxParts := some 3 },
+             { kind := .processor, aid := 2, up := [0], down := [2], cycle := 2, resReq := some [(0, 1)] },
+             { kind := .sink, aid := 3, up := [1] }]
+    assets := [.dev 0, .dev 1, .dev 2] }
+
+/-- the world is in the scope of stage A, not in that of stage S1 -/
+theorem s2_exRes : S2 exRes ∧ ¬ S1 exRes ∧ hasRes exRes = true := by decide
+
+theorem freshA_exRes : FreshA exRes :=
+  ⟨⟨rfl, rfl, rfl, rfl, by decide⟩, by decide, fun _ => by decide⟩
+
+theorem evOK_exRes : EvOK exRes := by
+  intro n hn d hd
+  have : n = 1 := by
+    simpa [C02V.acts, exRes, exEnvA, Env.applyAll, Env.apply, Env.schedule, insort, Env.newEvent,
+      Action.toNat] using hn
+  subst this
+  simp [Action.ofNat] at hd
+
+/-- the hypotheses of the closed-world theorems of stage A are satisfiable -/
+theorem goodA_exRes (n : Nat) : GoodA (runLoop n exRes.simulateInit) :=
+  wakeA_reachable n s2_exRes.1 (by decide) (by decide) evOK_exRes freshA_exRes
+
+/-- t = 1: the source holds part 0 and has been refused — the processor cannot get its unit, it
+is registered with the manager (`waitingRes`, one waiting request), the source is flagged; the next
+event is the script at t = 5: the clock is about to advance, the part is genuinely blocked -/
+def exWaiting : World := runLoop 3 exRes.simulateInit
+
+example : exWaiting.now = 1 ∧ ClockAdvances exWaiting ∧ ready exWaiting 0 0 ∧
+    (exWaiting.dev 1).waitingRes = true ∧ exWaiting.rm.waiting = [([(0, 1)], Cb.proc 1)] ∧
+    procReal exWaiting 1 = false ∧ procM (exWaiting.dev 1) = false ∧
+    WakeA exWaiting ∧ BlockedR exWaiting 0 0 ∧ BlockedW exWaiting 0 0 ∧
+    wouldAccept exWaiting.fuel exWaiting 1 0 = false ∧ Quiescent exWaiting := by decide
+
+/-- … as the theorem says -/
+example : Quiescent exWaiting := no_lost_wakeupA (goodA_exRes 3) (by decide)
+
+/-- t = 5, right after the script has added the unit: (W3) — the processor WOULD accept now
+(`wouldAccept`), the source is still flagged and has no attempt queued, but the manager's
+availability check is queued for the current instant; the clock is not about to advance -/
+def exChecking : World := runLoop 4 exRes.simulateInit
+
+example : exChecking.now = 5 ∧ ready exChecking 0 0 ∧ ¬ Att exChecking 0 ∧
+    (exChecking.dev 0).waitingDS = true ∧
+    wouldAccept exChecking.fuel exChecking 1 0 = true ∧ procReal exChecking 1 = true ∧
+    wouldAcceptR exChecking.fuel exChecking 1 0 = false ∧ ¬ BlockedW exChecking 0 0 ∧
+    BlockedR exChecking 0 0 ∧ WakeA exChecking ∧
+    C11W.QueuedL exChecking .rmCheck exChecking.now pOtherHigh (-1) ∧
+    ¬ ClockAdvances exChecking ∧ ¬ Quiescent exChecking := by decide
+
+/-- one event later the check has called the processor back (`procResourceCb` → `notify`): the
+source has its attempt queued (W1); another event later the part has been handed over and the
+processor holds its reservation -/
+example : Att (runLoop 5 exRes.simulateInit) 0 ∧
+    ((runLoop 5 exRes.simulateInit).dev 1).waitingRes = false ∧
+    (runLoop 5 exRes.simulateInit).rm.waiting = [] ∧
+    ((runLoop 6 exRes.simulateInit).dev 1).part = some 0 ∧
+    ((runLoop 6 exRes.simulateInit).dev 1).reserved = some 0 ∧
+    ((runLoop 6 exRes.simulateInit).dev 0).output = none := by decide
+
+/-- `give` answers `wouldAccept` in both states (refused for want of resources / accepted) -/
+example : (exWaiting.givePart 1 0).2 = false ∧ (exChecking.givePart 1 0).2 = true := by decide
+
+/-- t = 8: the processor is busy with part 1 (holding its reservation), the source is blocked with
+part 2 for the ordinary reason; the clock advances to 9 -/
+example : ClockAdvances (runLoop 14 exRes.simulateInit) ∧ ready (runLoop 14 exRes.simulateInit) 0 2 ∧
+    BlockedW (runLoop 14 exRes.simulateInit) 0 2 ∧ Quiescent (runLoop 14 exRes.simulateInit) := by
+  decide
+
+/-- As `exRes`, but the script also cancels the events of asset −1 (the resource manager's). -/
+def cexCancelM : World := { exRes with scripts := [[.addRes 0 1, .cancel (-1)]] }
+
+/-- **In stage A a script must not cancel the manager's events.**  The world is of the machinery's
+scope `SC` and fresh, only `C11W.S` fails (the script cancels asset −1).  The script cancels the
+availability check it has just caused: at t = 5 the queue runs empty while the source holds a ready
+part that the processor — whose request fits now — would accept. -/
+theorem cancel_manager_false :
+    SC cexCancelM ∧ ¬ S2 cexCancelM ∧ FreshA cexCancelM ∧
+    ClockAdvances (runLoop 5 cexCancelM.simulateInit) ∧
+    ready (runLoop 5 cexCancelM.simulateInit) 0 0 ∧
+    wouldAccept (runLoop 5 cexCancelM.simulateInit).fuel (runLoop 5 cexCancelM.simulateInit) 1 0 = true ∧
+    ¬ Quiescent (runLoop 5 cexCancelM.simulateInit) := by
+  refine ⟨by decide, by decide, ⟨⟨rfl, rfl, rfl, rfl, by decide⟩, by decide, fun _ => by decide⟩,
+    by decide, by decide, by decide, by decide⟩
+
+/-! ### non-vacuity, stage B -/
+
+/-- source 0 (cycle 1, 7 parts) → batcher 1 (batches of 2) → slow sink 2 (cycle 5) -/
+def exBat : World :=
+  { devs := [{ kind := .source, aid := 1, down := [1], cycle := 1, maxParts := some 7 },
+             { kind := .batcher, aid := 2, up := [0], down := [2], bsize := some 2 },
+             { kind := .sink, aid := 3, up := [1], cycle := 5 }],
+    assets := [.dev 0, .dev 1, .dev 2] }
+
+/-- source 0 generates batches of 3 → buffer 1 (capacity 4) → unbatcher 2 → slow sink 3 -/
+def exUnb : World :=
+  { devs := [{ kind := .source, aid := 1, down := [1], cycle := 1, maxParts := some 4, genBatch := 3 },
+             { kind := .buffer, aid := 2, up := [0], down := [2], cap := some 4 },
+             { kind := .batcher, aid := 3, up := [1], down := [3] },
+             { kind := .sink, aid := 4, up := [2], cycle := 2 }],
+    assets := [.dev 0, .dev 1, .dev 2, .dev 3] }
+
+/-- both are in the scope of stage B, not in that of stage A -/
+theorem s3_exBat : S3 exBat ∧ ¬ S2 exBat ∧ S3 exUnb ∧ ¬ S2 exUnb := by decide
+
+theorem freshA_exBat : FreshA exBat ∧ FreshA exUnb :=
+  ⟨⟨⟨rfl, rfl, rfl, rfl, by decide⟩, by decide, fun h => by cases h⟩,
+   ⟨⟨rfl, rfl, rfl, rfl, by decide⟩, by decide, fun h => by cases h⟩⟩
+
+theorem evOK_exBat : EvOK exBat ∧ EvOK exUnb :=
+  ⟨fun n hn => by simp [C02V.acts, exBat] at hn, fun n hn => by simp [C02V.acts, exUnb] at hn⟩
+
+/-- the hypotheses of the closed-world theorems of stage B are satisfiable -/
+theorem goodB_exBat (n : Nat) : GoodB (runLoop n (exBat.simulateInit.runBegin 100).1) :=
+  wakeB_simulate n 100 s3_exBat.1 C01.inv_init (by decide) evOK_exBat.1 freshA_exBat.1
+
+theorem goodB_exUnb (n : Nat) : GoodB (runLoop n (exUnb.simulateInit.runBegin 100).1) :=
+  wakeB_simulate n 100 s3_exBat.2.2.1 C01.inv_init (by decide) evOK_exBat.2 freshA_exBat.2
+
+/-- t = 5: the batcher holds the complete batch 4 = [3, 5] in its output slot and is flagged (the
+sink is busy until 7), the source holds part 6 and is flagged (the batcher refuses: its output is
+occupied); the clock is about to advance; both parts are genuinely blocked -/
+def exBatBlocked : World := runLoop 12 (exBat.simulateInit.runBegin 100).1
+
+example : exBatBlocked.now = 5 ∧ ClockAdvances exBatBlocked ∧
+    (exBatBlocked.part 4).kids = some [3, 5] ∧ ready exBatBlocked 1 4 ∧ ready exBatBlocked 0 6 ∧
+    BlockedW exBatBlocked 1 4 ∧ BlockedW exBatBlocked 0 6 ∧ WakeA exBatBlocked ∧
+    Quiescent exBatBlocked := by decide
+
+example : Quiescent exBatBlocked := no_lost_wakeupB (goodB_exBat 12) (by decide)
+
+/-- t = 7: the sink has notified, the batcher has handed its batch over and — counted as willing
+after its own notification — is free again; the source's attempt is queued (W1); one event later
+the batcher has taken part 6 into a new batch under construction and accepts again without any
+further notification -/
+example : Att (runLoop 14 (exBat.simulateInit.runBegin 100).1) 0 ∧
+    ((runLoop 14 (exBat.simulateInit.runBegin 100).1).dev 1).output = none ∧
+    ((runLoop 15 (exBat.simulateInit.runBegin 100).1).dev 1).inprog = some 7 ∧
+    ((runLoop 15 (exBat.simulateInit.runBegin 100).1).part 7).kids = some [6] ∧
+    wouldAccept (runLoop 15 (exBat.simulateInit.runBegin 100).1).fuel
+      (runLoop 15 (exBat.simulateInit.runBegin 100).1) 1 0 = true := by decide
+
+/-- t = 3 in the second line: the buffer holds batch 7 (3 parts, level 3 of 4); the source holds
+batch 11 (3 parts) and is refused because 3 + 3 > 4 — a buffer counts all parts of a batch; the
+buffer's head is refused by the busy unbatcher; the clock is about to advance, everything is
+genuinely blocked.  A SINGLE part would be accepted by the buffer. -/
+def exUnbBlocked : World := runLoop 15 (exUnb.simulateInit.runBegin 100).1
+
+example : exUnbBlocked.now = 3 ∧ ClockAdvances exUnbBlocked ∧
+    exUnbBlocked.leafCount 11 = 3 ∧ (exUnbBlocked.dev 1).level = 3 ∧
+    ready exUnbBlocked 0 11 ∧ ready exUnbBlocked 1 7 ∧ ready exUnbBlocked 2 2 ∧
+    wouldAccept exUnbBlocked.fuel exUnbBlocked 1 11 = false ∧
+    wouldAccept exUnbBlocked.fuel exUnbBlocked 1 2 = true ∧
+    BlockedW exUnbBlocked 0 11 ∧ BlockedW exUnbBlocked 1 7 ∧ BlockedW exUnbBlocked 2 2 ∧
+    WakeA exUnbBlocked ∧ Quiescent exUnbBlocked := by decide
+
+example : Quiescent exUnbBlocked := no_lost_wakeupB (goodB_exUnb 15) (by decide)
+
+/-- `give` answers `wouldAccept` for a batch offered to the buffer (refused) -/
+example : (exUnbBlocked.givePart 1 11).2 = false := by decide
+
+/-! #### stage C: one group shared by two lines -/
+
+/-- two lines share the machine 5 of one group: source 0 → group path 2 → sink 7 and source 1 →
+group path 3 → sink 8; the group (input 4 → handler 5 (cycle 2) → output 6) is entered through
+either path, and the part leaves towards the sink of the path it came in through (slow sinks,
+cycle 5) -/
+def exGrp : World :=
+  { devs := [{ kind := .source, aid := 1, down := [2], cycle := 1, maxParts := some 3 },
+             { kind := .source, aid := 2, down := [3], cycle := 1, maxParts := some 3 },
+             { kind := .gpath, aid := 3, group := 0, up := [0], down := [7] },
+             { kind := .gpath, aid := 4, group := 0, up := [1], down := [8] },
+             { kind := .ginput, aid := 5, group := 0, down := [5] },
+             { kind := .handler, aid := 6, up := [4], down := [6], cycle := 2 },
+             { kind := .goutput, aid := 7, group := 0, up := [5] },
+             { kind := .sink, aid := 8, up := [2], cycle := 5 },
+             { kind := .sink, aid := 9, up := [3], cycle := 5 }],
+    groups := [{ paths := [2, 3], input := 4, output := 6 }],
+    assets := [.dev 0, .dev 1, .dev 2, .dev 3, .dev 4, .dev 5, .dev 6, .dev 7, .dev 8] }
+
+/-- in the scope of stage C, not in that of stage B -/
+theorem s4_exGrp : S4 exGrp ∧ ¬ S3 exGrp := by decide
+
+theorem freshA_exGrp : FreshA exGrp :=
+  ⟨⟨rfl, rfl, rfl, rfl, by decide⟩, by decide, fun h => by cases h⟩
+
+theorem evOK_exGrp : EvOK exGrp := fun n hn => by simp [C02V.acts, exGrp] at hn
+
+/-- the hypotheses of the closed-world theorems of stage C are satisfiable -/
+theorem goodC_exGrp (n : Nat) : GoodB (runLoop n (exGrp.simulateInit.runBegin 100).1) :=
+  wakeC_simulate n 100 s4_exGrp.1 C01.inv_init (by decide) evOK_exGrp freshA_exGrp
+
+/-- t = 5: the shared machine 5 holds part 2 of the first line (group-path stack [2]) and is flagged:
+the sink 7 of ITS path is busy until 8 (the sink 8 of the other line is idle — the group output
+passes the part on along the path it came in through only); both sources hold a part and are
+flagged, the machine being occupied; the clock is about to advance; everything is genuinely
+blocked -/
+def exGrpBlocked : World := runLoop 14 (exGrp.simulateInit.runBegin 100).1
+
+example : exGrpBlocked.now = 5 ∧ ClockAdvances exGrpBlocked ∧
+    (exGrpBlocked.part 2).stack = [2] ∧ (exGrpBlocked.dev 8).part = none ∧
+    ready exGrpBlocked 5 2 ∧ ready exGrpBlocked 0 3 ∧ ready exGrpBlocked 1 1 ∧
+    BlockedW exGrpBlocked 5 2 ∧ BlockedW exGrpBlocked 0 3 ∧ BlockedW exGrpBlocked 1 1 ∧
+    WakeA exGrpBlocked ∧ Quiescent exGrpBlocked := by decide
+
+example : Quiescent exGrpBlocked := no_lost_wakeupC (goodC_exGrp 14) (by decide)
+
+/-- `give` answers `wouldAccept` through the group: the offer of part 3 to group path 2 is refused
+(the machine is occupied) -/
+example : (exGrpBlocked.givePart 2 3).2 = false ∧
+    wouldAccept exGrpBlocked.fuel exGrpBlocked 2 3 = false := by decide
+
+/-- t = 8: the sink 7 has notified its group path, the notification has gone through the group
+output to the machine, which has handed its part over and notified — through the group input —
+BOTH group paths: both sources have a hand-over attempt queued (W1) -/
+example : (runLoop 16 (exGrp.simulateInit.runBegin 100).1).now = 8 ∧
+    Att (runLoop 16 (exGrp.simulateInit.runBegin 100).1) 0 ∧
+    Att (runLoop 16 (exGrp.simulateInit.runBegin 100).1) 1 ∧
+    ((runLoop 16 (exGrp.simulateInit.runBegin 100).1).dev 5).output = none := by decide
+
+/-- Necessity of "a group input has no upstream neighbour" (`GroupOK`): a device wired DIRECTLY in
+front of a group input (not through a group path) is never woken — a group input forwards
+notifications to the group paths only. -/
+def cexGin : World :=
+  { devs := [{ kind := .source, aid := 1, down := [1], cycle := 1, maxParts := some 3 },
+             { kind := .ginput, aid := 2, group := 0, up := [0], down := [2] },
+             { kind := .handler, aid := 3, up := [1], down := [3], cycle := 3 },
+             { kind := .sink, aid := 4, up := [2] }],
+    groups := [{ paths := [], input := 1, output := 0 }],
+    assets := [.dev 0, .dev 1, .dev 2, .dev 3] }
+
+/-- t = 4: the handler has handed its part over and is free, the source still holds part 1 and is
+flagged, nothing is queued before the end of the run: a lost wake-up.  The world violates only the
+clause "a group input has no upstream neighbour" of the scope. -/
+theorem group_input_upstream_false :
+    ¬ S4 cexGin ∧ FreshA cexGin ∧
+    ClockAdvances (runLoop 6 (cexGin.simulateInit.runBegin 100).1) ∧
+    ready (runLoop 6 (cexGin.simulateInit.runBegin 100).1) 0 1 ∧
+    wouldAccept (runLoop 6 (cexGin.simulateInit.runBegin 100).1).fuel
+      (runLoop 6 (cexGin.simulateInit.runBegin 100).1) 1 1 = true ∧
+    ¬ Quiescent (runLoop 6 (cexGin.simulateInit.runBegin 100).1) := by
+  refine ⟨by decide, ⟨⟨rfl, rfl, rfl, rfl, by decide⟩, by decide, fun h => by cases h⟩,
+    by decide, by decide, by decide, by decide⟩
 
 end C03W
 end SimProc
